@@ -45,6 +45,19 @@ def run(F, R):
     r4_raii(F, R, M, rule='L6')
 
 
+def registration_rule(F, R, rule):
+    """L3's queue_set obligations (index, size = SIZE, the three area addresses) under another property's rule id: the
+    device locates ring slots with the size it was told."""
+    M = model(F)
+    M.require_rings()
+    lay = find_layout_adt(F, M)
+    if not lay:
+        raise Undecided('queue layout type (enum/struct holding the DMA regions) not found')
+    P = RuleProxy(R, {'L3': rule}, only=lambda inst: 'queue_set' in inst)
+    roles = l2_alloc(F, P, M, lay)
+    l3_registration(F, P, M, lay, roles)
+
+
 def l1_layouts(F, R, M):
     want = {'desc': (M.desc_adt, None), 'avail': (M.avail_adt, 2), 'used': (M.used_adt, 8)}
     d = F.adts.get(M.desc_adt) if M.desc_adt else None
